@@ -153,6 +153,16 @@ func genbankAccessionParser(gb *GenBank, depth int) pars.Parser {
 	parser := genbankGenericFieldParser("ACCESSION", depth)
 	return parser.Map(func(result *pars.Result) error {
 		gb.Fields.Accession = string(result.Token)
+		// A sliced record names the region it was cut from behind its
+		// accession: read it back into the field it was written from.
+		const mark = " REGION: "
+		if i := strings.LastIndex(gb.Fields.Accession, mark); i >= 0 {
+			loc, err := gts.AsLocation(gb.Fields.Accession[i+len(mark):])
+			if r, ok := loc.(gts.Ranged); ok && err == nil && r.Partial == (gts.Partial{}) {
+				gb.Fields.Accession = gb.Fields.Accession[:i]
+				gb.Fields.Region = gts.Segment{r.Start, r.End}
+			}
+		}
 		return nil
 	})
 }
